@@ -114,6 +114,80 @@ impl<'a> ItemLen for &'a mut () {
     }
 }
 
+/// Giant arrays of BYTES (unit 2^32 only: 4 to 13 GiB of address space, never touched).  Zero-sized cells all live at one
+/// address, so an accessor that computes the wrong offset inside a giant array is invisible on them; with one-byte cells
+/// the address of the reference IS the cell's identity: &x[(c, r)] must be base + r * stride + c.
+fn run_bytes(case: &Value, nc: usize, nr: usize, fails: &mut Vec<Fail>) {
+    const U: u128 = 1 << 32;
+    let cells = match nc.checked_mul(nr) {
+        Some(n) if n <= 3 * ((1usize << 32) + 64) => n,
+        _ => return,
+    };
+    let built = guarded(|| TooDee::<u8>::from_vec(nc, nr, vec![0u8; cells]));
+    let mut t = match built {
+        Ok(t) => t,
+        Err(()) => return,
+    };
+    let base = t.data().as_ptr() as usize;
+    let mut at = |what: &str, got: Result<usize, ()>, want: usize, fails: &mut Vec<Fail>| {
+        if let Ok(a) = got {
+            if a != want {
+                fails.push(Fail::new(0, "res", json!({"receiver": what, "cells": "u8", "dims": [nc, nr], "expected_offset": want - base,
+                    "observed_offset": a.wrapping_sub(base)})));
+            }
+        }
+    };
+    match case["t"].as_str().unwrap() {
+        "acc" => {
+            let (c, r) = match (val(&case["c"], U), val(&case["r"], U)) {
+                (Some(c), Some(r)) => (c, r),
+                _ => return,
+            };
+            if c < nc && r < nr {
+                let want = base + r * nc + c;
+                at("TooDee<u8>[(c,r)]", guarded(|| &t[(c, r)] as *const u8 as usize), want, fails);
+                at("TooDee<u8>[r][c]", guarded(|| &t[r][c] as *const u8 as usize), want, fails);
+                at("TooDee<u8>.col(c)[r]", guarded(|| &t.col(c)[r] as *const u8 as usize), want, fails);
+                at("TooDeeView<u8>[(c,r)]", guarded(|| { let v = t.view((0, 0), (nc, nr)); &v[(c, r)] as *const u8 as usize }), want, fails);
+                at("TooDeeViewMut<u8>[(c,r)]", guarded(|| { let mut v = t.view_mut((0, 0), (nc, nr)); &mut v[(c, r)] as *mut u8 as usize }), want, fails);
+                at("TooDeeView<u8>.get_unchecked", guarded(|| { let v = t.view((0, 0), (nc, nr)); unsafe { v.get_unchecked((c, r)) as *const u8 as usize } }), want, fails);
+            }
+            // the same row through a narrow window (2 columns starting at column 1): stride = nc, width 2
+            if nc >= 3 && r < nr {
+                for cc in 0..2usize {
+                    let want = base + r * nc + 1 + cc;
+                    at("narrow TooDeeView<u8>[(c,r)]", guarded(|| { let v = t.view((1, 0), (3, nr)); &v[(cc, r)] as *const u8 as usize }), want, fails);
+                    at("narrow TooDeeView<u8>[r][c]", guarded(|| { let v = t.view((1, 0), (3, nr)); &v[r][cc] as *const u8 as usize }), want, fails);
+                    at("narrow TooDeeView<u8>.col(c)[r]", guarded(|| { let v = t.view((1, 0), (3, nr)); &v.col(cc)[r] as *const u8 as usize }), want, fails);
+                    at("narrow TooDeeViewMut<u8>[(c,r)]", guarded(|| { let mut v = t.view_mut((1, 0), (3, nr)); &mut v[(cc, r)] as *mut u8 as usize }), want, fails);
+                    at("narrow TooDeeViewMut<u8>.get_unchecked_mut", guarded(|| { let mut v = t.view_mut((1, 0), (3, nr)); unsafe { v.get_unchecked_mut((cc, r)) as *mut u8 as usize } }), want, fails);
+                }
+            }
+        }
+        "view" => {
+            let (s, e) = (&case["s"], &case["e"]);
+            let (sc, sr, ec, er) = match (val(&s[0], U), val(&s[1], U), val(&e[0], U), val(&e[1], U)) {
+                (Some(a), Some(b), Some(c), Some(d)) => (a, b, c, d),
+                _ => return,
+            };
+            if case["x"]["res"]["k"] != "grid" || sc >= ec || sr >= er {
+                return;
+            }
+            let (w, h) = (ec - sc, er - sr);
+            at("view<u8> first cell", guarded(|| { let v = t.view((sc, sr), (ec, er)); &v[(0, 0)] as *const u8 as usize }), base + sr * nc + sc, fails);
+            at("view<u8> last cell", guarded(|| { let v = t.view((sc, sr), (ec, er)); &v[(w - 1, h - 1)] as *const u8 as usize }),
+               base + (er - 1) * nc + ec - 1, fails);
+            at("view_mut<u8> last cell", guarded(|| { let mut v = t.view_mut((sc, sr), (ec, er)); &mut v[(w - 1, h - 1)] as *mut u8 as usize }),
+               base + (er - 1) * nc + ec - 1, fails);
+            at("view of view<u8> last cell", guarded(|| { let v0 = t.view((0, 0), (nc, nr)); let v = v0.view((sc, sr), (ec, er)); &v[(w - 1, h - 1)] as *const u8 as usize }),
+               base + (er - 1) * nc + ec - 1, fails);
+            at("view<u8> last row", guarded(|| { let v = t.view((sc, sr), (ec, er)); v.rows().next_back().unwrap().as_ptr() as usize }),
+               base + (er - 1) * nc + sc, fails);
+        }
+        _ => {}
+    }
+}
+
 pub fn run_case(case: &Value) -> Vec<Fail> {
     let mut fails = Vec::new();
     let mut ran = 0;
@@ -135,6 +209,12 @@ pub fn run_case(case: &Value) -> Vec<Fail> {
             }
         };
         ran += 1;
+        if u == 1 << 32 && std::env::var("VERIF_NO_GIANT_BYTES").is_err() {
+            run_bytes(case, nc, nr, &mut fails);
+            if !fails.is_empty() {
+                return fails;
+            }
+        }
         match case["t"].as_str().unwrap() {
             "iter" => {
                 let calls = case["calls"].as_array().unwrap();
